@@ -66,7 +66,7 @@ def gen_rule(rng, early):
 
 def gen_spec(rng, wide_times=False):
     south = rng.random() < 0.4
-    std = rng.choice([-43200, -36000, -18000, -12600, 0, 3600, 19800, 20700, 32400, 43200, 50400])
+    std = rng.choice([-43200, -36000, -18000, -12600, -7200, -3600, -1800, 0, 3600, 19800, 20700, 32400, 43200, 50400])   # incl. dst offset exactly 0
     save = rng.choice([3600, 3600, 3600, 1800, 7200])
     dst = std + save
     sr = gen_rule(rng, not south)
